@@ -292,6 +292,10 @@ def run(ctx):
             vals = ", ".join(str(rng.choice([0, 1, 3, 7, 42, 255, -1])) for _ in range(rng.randrange(1, 4)))
             d = rng.choice([".word", ".word", ".byte", ".half", ".dword"]) + " " + vals
             p[at:at] = rng.choice([[".data", d, ".text"], [d], [".data", d], [".data", "tbl_%d:" % at, d, ".text"], [".text"], [".globl main"]])
+    for p in progs:                  # the one-register spelling of jalr (an indirect call), which a comment or blank may follow
+        if rng.random() < 0.25 and len(p) > 2:
+            at = rng.randrange(1, len(p))
+            p[at:at] = [rng.choice(["jalr t1", "jalr a5", "jalr s2", "jr t1"])]
     cases = []
     for p in progs:
         items = [parse_line(l) for l in p]
